@@ -77,6 +77,8 @@ struct Flags {
     command_restored: bool,
     globaldefs_forced_global: bool,
     globaldefs_forced_local: bool,
+    /// a \global-prefixed assignment ran while \globaldefs>0 and later an unprefixed one ran inside a group while \globaldefs=0
+    prefix_under_positive_globaldefs_then_plain_at_zero: bool,
     max_depth: usize,
 }
 
@@ -133,6 +135,7 @@ impl<'a> Prog<'a> {
         let mut expected = vec![m.top().clone()];
         let mut flags = Flags::default();
         let mut n = 0usize;
+        let mut prefixed_under_positive = false;
         for op in &self.ops {
             match *op {
                 Op::Open => {
@@ -172,6 +175,12 @@ impl<'a> Prog<'a> {
                     }
                     if gd < 0 && g {
                         flags.globaldefs_forced_local = true;
+                    }
+                    if gd > 0 && g {
+                        prefixed_under_positive = true;
+                    }
+                    if gd == 0 && !g && !form.gdef && prefixed_under_positive && m.depth() >= 1 {
+                        flags.prefix_under_positive_globaldefs_then_plain_at_zero = true;
                     }
                     let new = (form.apply)(m.get(tgt), i);
                     if g {
@@ -340,6 +349,7 @@ fn run_case(idx: u64, prog: &Prog, acc: &mut Acc) -> Option<(Built, Vec<Vec<Stri
         (f.command_restored, "control_sequence_target_restored"),
         (f.globaldefs_forced_global, "globaldefs_positive_forced_global"),
         (f.globaldefs_forced_local, "globaldefs_negative_overrode_global_prefix"),
+        (f.prefix_under_positive_globaldefs_then_plain_at_zero, "global_prefix_under_positive_globaldefs_then_plain_assignment_at_zero"),
         (f.max_depth >= 8, "nesting_depth_8_reached"),
     ] {
         if on {
@@ -707,6 +717,34 @@ fn main() {
         }
         run_hist_family(&mut ctx, "kind-pairs", &format!("every unordered pair of kinds ({pairs} pairs, \\globaldefs is one of the kinds with the assignments =1, =-1, =0): every history of exactly {len6} ops over {{, }}, local/\\global assignment to a target of kind A, local/\\global to a target of kind B ({len10} ops for the 10-op alphabets with \\globaldefs)"), blocks, 9001);
     }
+    // ---- (g) one kind together with \globaldefs: longer histories than the pairs family, so that state kept by
+    // the prefix machinery across a change of \globaldefs (e.g. a \global bit recorded but not consumed while
+    // \globaldefs>0) meets a later unprefixed assignment after \globaldefs is back to 0
+    {
+        const REPRESENTATIVE: [&str; 7] = ["count", "toks", "catcode-low", "macro", "let", "countdef", "font"];
+        let gdk = &all[gd_index];
+        // (alphabet with \global\globaldefs variants?, length)
+        let plans: Vec<(bool, usize)> = if quick { vec![(false, 6)] } else { vec![(false, 7), (true, 6)] };
+        let mut blocks = Blocks::new();
+        let mut desc = vec![];
+        for (with_prefixed, len) in &plans {
+            let mut alpha = vec![Op::Open, Op::Close, Op::Assign { tgt: 0, f: 0, g: false }, Op::Assign { tgt: 0, f: 0, g: true }];
+            for f in 0..3u8 {
+                alpha.push(Op::Assign { tgt: 1, f, g: false });
+            }
+            if *with_prefixed {
+                for f in 0..3u8 {
+                    alpha.push(Op::Assign { tgt: 1, f, g: true });
+                }
+            }
+            desc.push(format!("{} ops ^ {}", alpha.len(), len));
+            for name in REPRESENTATIVE {
+                let k = all.iter().find(|k| k.name == name).expect("representative kind");
+                blocks.push(HistBlock { kinds: vec![k, gdk], targets: vec![(0, 0), (1, 0)], len: *len, alpha: alpha.clone() }, pow(alpha.len(), *len));
+            }
+        }
+        run_hist_family(&mut ctx, "globaldefs-histories", &format!("per kind in {REPRESENTATIVE:?} (one per container / scope-hook call site): every history of exactly L ops over {{, }}, local assign, \\global assign, \\globaldefs=1, \\globaldefs=-1, \\globaldefs=0 (and, in the larger alphabet, the three \\global\\globaldefs forms); {}; both the target and \\globaldefs probed after every op", desc.join(" and ")), blocks, 10007);
+    }
     // ---- (xs) explicit-state search per kind, merged on the drained implementation state
     if ctx.wants("xs-drained-state") {
         let t = std::time::Instant::now();
@@ -770,6 +808,7 @@ fn main() {
     ctx.require("control_sequence_target_restored", "a closing group restores a control-sequence definition");
     ctx.require("globaldefs_positive_forced_global", "an unprefixed assignment executed while \\globaldefs>0");
     ctx.require("globaldefs_negative_overrode_global_prefix", "a \\global assignment executed while \\globaldefs<0");
+    ctx.require("global_prefix_under_positive_globaldefs_then_plain_assignment_at_zero", "a \\global-prefixed assignment ran while \\globaldefs>0 and a later unprefixed assignment ran inside a group with \\globaldefs=0");
     ctx.require("nesting_depth_8_reached", "a history reaches nesting depth 8");
     ctx.finish("a case is one operation history ({, }, local/\\global assignments) for one target kind or a pair of kinds, run as a TeX program on a fresh VM with a probe of every target after every op and compared with a stack-of-snapshots model at every probe; histories are enumerated exhaustively per family bound (index -> digits over the alphabet), never sampled; non-trivial = the history executes at least one `}` while the closing group holds a saved value for some target (computed on the model); distinct = distinct (kinds, history)");
 }
